@@ -23,6 +23,19 @@ OUT = os.path.join(VERIF, "lean", "MypyVerif", "Gen", "ReachTables.lean")
 OPS = {"==": "Op.eq", "!=": "Op.ne", "<": "Op.lt", "<=": "Op.le", ">": "Op.gt", ">=": "Op.ge"}
 
 
+MISSING: list[str] = []      # what could not be read / run in this tree (fail closed: the table is emitted empty, so
+                             # the obligation over it fails and the harness goes on to its search)
+
+
+def _table(mod, name: str) -> dict:
+    """A dict-valued module attribute; an absent or differently shaped one is an empty table (a broken tie, not a crash)."""
+    v = getattr(mod, name, None)
+    if not isinstance(v, dict):
+        MISSING.append(f"mypy.reachability.{name} is " + ("absent" if v is None else f"a {type(v).__name__}, not a dict"))
+        return {}
+    return dict(v)
+
+
 def tables() -> dict:
     r = importlib.import_module("mypy.reachability")
     from mypy.nodes import NameExpr, OpExpr, UnaryExpr
@@ -52,7 +65,7 @@ def tables() -> dict:
     for sym in OPS:
         for (l, rr, ordn) in ((1, 2, "Ordering.lt"), (1, 1, "Ordering.eq"), (2, 1, "Ordering.gt")):
             fixed.append((sym, ordn, r.fixed_comparison(l, sym, rr)))
-    return {"tv": tv, "invert": dict(r.inverted_truth_mapping), "reverse": dict(r.reverse_op), "bool": bool_tables,
+    return {"tv": tv, "invert": _table(r, "inverted_truth_mapping"), "reverse": _table(r, "reverse_op"), "bool": bool_tables,
             "fixed": fixed, "names": names, "leaves_ok": leaves_ok}
 
 
@@ -63,7 +76,11 @@ def _version_value(src: str, target=(3, 12)) -> int:
     from mypy.options import Options
     o = Options()
     tree = parse(f"if {src}: pass\n", "p.py", "p", Errors(o), o)
-    return r.consider_sys_version_info(tree.defs[0].expr[0], target)
+    try:
+        return r.consider_sys_version_info(tree.defs[0].expr[0], target)
+    except Exception as e:                    # the real function fails on this probe: recorded, emitted as an impossible value
+        MISSING.append(f"consider_sys_version_info raises {type(e).__name__} on `{src}`")
+        return -1
 
 
 def open_slice_fix() -> bool:
@@ -76,13 +93,18 @@ def probes() -> list[tuple[str, str, str, str, int]]:
     """(source, lean left operand, lean op, lean right operand, real value) for target 3.12"""
     forms = [("sys.version_info", ".versionInfo", 0), ("sys.version_info[0:]", ".slice (some (.int 0)) none none", 0),
              ("sys.version_info[1:]", ".slice (some (.int 1)) none none", 1), ("sys.version_info[::1]", ".slice none none (some 1)", 0),
-             ("sys.version_info[:2]", ".slice none (some (.int 2)) none", 0), ("sys.version_info[1:2]", ".slice (some (.int 1)) (some (.int 2)) none", 1)]
+             ("sys.version_info[:2]", ".slice none (some (.int 2)) none", 0), ("sys.version_info[1:2]", ".slice (some (.int 1)) (some (.int 2)) none", 1),
+             ("sys.version_info[0]", ".index (.int 0)", None), ("sys.version_info[1]", ".index (.int 1)", None)]
     out = []
     for src, lean, lo in forms:
         for minor in (12, 11):
-            items = (3, minor)[lo:]
-            lit = "(" + ", ".join(map(str, items)) + ("," if len(items) == 1 else "") + ")"
-            lean_lit = ".tuple [" + ", ".join(f".int {x}" for x in items) + "]"
+            if lo is None:                     # an index against an int literal: equal / smaller than the component
+                k = (3 if minor == 12 else 2) if src.endswith("[0]") else minor
+                lit, lean_lit = str(k), f".lit (.int {k})"
+            else:
+                items = (3, minor)[lo:]
+                lit = "(" + ", ".join(map(str, items)) + ("," if len(items) == 1 else "") + ")"
+                lean_lit = ".tuple [" + ", ".join(f".int {x}" for x in items) + "]"
             for sym, lop in OPS.items():
                 out.append((f"{src} {sym} {lit}", lean, "." + lop[3:], lean_lit, _version_value(f"{src} {sym} {lit}")))
                 out.append((f"{lit} {sym} {src}", lean_lit, "." + lop[3:], lean, _version_value(f"{lit} {sym} {src}")))
@@ -90,6 +112,7 @@ def probes() -> list[tuple[str, str, str, str, int]]:
 
 
 def main() -> int:
+    del MISSING[:]
     t = tables()
     tv = t["tv"]
 
@@ -126,6 +149,9 @@ def main() -> int:
     pr = probes()
     L += ["  (%s, %s, %s, %s)%s  -- %s" % (a, op, b, T(v), "," if i < len(pr) - 1 else "", src) for i, (src, a, op, b, v) in enumerate(pr)]
     L.append("]")
+    L.append("")
+    L.append("/-- what translate/reach_tables.py could not read or run in this tree (must be empty) -/")
+    L.append("def missing : List String := [" + ", ".join('"%s"' % m.replace("\\", "/").replace('"', "'") for m in MISSING) + "]")
     L += ["", "end Reach.Gen", ""]
     text = "\n".join(L)
     os.makedirs(os.path.dirname(OUT), exist_ok=True)
